@@ -193,13 +193,16 @@ def sign_query(e, truth_set):
             v = complex(e.evalf(30))
             s = ZERO if abs(v) < 1e-25 else (POS if v.real > 0 else NEG)
         return s in truth_set
+    p = current()
+    if getattr(p, 'concolic_sign', None) is not None:
+        # concolic path: the condition is evaluated at the concrete point, no normalisation needed
+        return p.concolic_sign(e) in truth_set
     n, d = numden(e)
     prod = n if d.is_number and d > 0 else (-n if d.is_number else sp.expand(n * d))
     key, poly, flip = canon(prod)
     if key is None:
         return sign_query(poly, truth_set)
     ts = frozenset(_FLIP[t] for t in truth_set) if flip else frozenset(truth_set)
-    p = current()
     possible = p.sign_set(key, poly)
     if not (possible <= ts) and (possible & ts) and key not in p.signs:
         possible = possible & _sign_from_factors(p, poly)
@@ -258,13 +261,15 @@ def assume_sign(e, truth_set):
     e = sp.sympify(e)
     if e.is_number:
         return sign_query(e, truth_set)
+    p = current()
+    if getattr(p, 'concolic_sign', None) is not None:
+        return p.concolic_sign(e) in truth_set
     n, d = numden(e)
     prod = n if d.is_number and d > 0 else (-n if d.is_number else sp.expand(n * d))
     key, poly, flip = canon(prod)
     if key is None:
         return sign_query(poly, truth_set)
     ts = frozenset(_FLIP[t] for t in truth_set) if flip else frozenset(truth_set)
-    p = current()
     p.narrow(key, poly, p.sign_set(key, poly) & ts)
     return True
 
@@ -779,7 +784,7 @@ def s_sqrt(a):
         raise Unsupported('sqrt of a symbolic complex value')
     # perfect squares whose root has a known sign (sympy assumptions): sqrt(x**2) = x for x > 0
     try:
-        rs = sp.sqrt(sp.factor(e)) if e.count_ops() < 40 else None
+        rs = sp.sqrt(e) if e.count_ops() < 40 else None
         if rs is not None and not rs.has(sp.Pow) or (rs is not None and all(
                 (pw.exp.is_Integer) for pw in rs.atoms(sp.Pow))):
             if not rs.has(sp.Abs) and not rs.has(sp.sign):
@@ -787,8 +792,24 @@ def s_sqrt(a):
     except Exception:
         pass
     p = current()
+    big = e.count_ops() > 120 or sum(1 for t_ in sp.Add.make_args(e) if sp.fraction(t_)[1] != 1) > 3
+    key = sp.srepr(e) if big else sp.srepr(sp.together(e))
+    if key in p.sqrt_atoms:
+        return Sym(p.sqrt_atoms[key][0])
+    if big:
+        # large radicand: no normalisation (the common denominator of a long sum is expensive and not needed);
+        # well-definedness (radicand >= 0) is an assumption recorded on the path
+        if p.ieee:
+            if sign_query(e, (NEG,)):
+                return Sym(0, NAN)
+        else:
+            p.wd.append(('nonneg', e))
+        r = _new_atom(p, 'r', nonnegative=True)
+        p.atom_eqs.append(r * r - e)
+        p.atom_nonneg.append(r)
+        p.sqrt_atoms[key] = (r, e)
+        return Sym(r)
     n, d = numden(e)
-    # perfect squares of known sign need no atom
     if p.ieee:
         if sign_query(e, (NEG,)):
             return Sym(0, NAN)
@@ -802,19 +823,16 @@ def s_sqrt(a):
                     return Sym(0, NAN)
                 p.wd.append(('nonneg', e))
                 p.narrow(key_, poly_, poss - {neg})
-    key = sp.srepr(sp.together(e))
-    if key not in p.sqrt_atoms:
-        key2 = sp.srepr(n / d)
-        r = None
-        for k2, (rr, ee) in p.sqrt_atoms.items():
-            if sp.expand(numden(ee - e)[0]) == 0:
-                r = rr
-                break
-        if r is None:
-            r = _new_atom(p, 'r', nonnegative=True)
-            p.atom_eqs.append(sp.expand(r * r * d - n))
-            p.atom_nonneg.append(r)
-        p.sqrt_atoms[key] = (r, e)
+    r = None
+    for k2, (rr, ee) in p.sqrt_atoms.items():
+        if ee.count_ops() <= 120 and sp.expand(numden(ee - e)[0]) == 0:
+            r = rr
+            break
+    if r is None:
+        r = _new_atom(p, 'r', nonnegative=True)
+        p.atom_eqs.append(sp.expand(r * r * d - n))
+        p.atom_nonneg.append(r)
+    p.sqrt_atoms[key] = (r, e)
     return Sym(p.sqrt_atoms[key][0])
 
 
